@@ -61,9 +61,10 @@ class Part:
     pass
 
 
-def gen_build(bname, repo=None, usize_bytes=8):
+def gen_build(bname, repo=None, usize_bytes=None):
     repo = repo or units.REPO
     b = units.BUILDS[bname]
+    usize_bytes = usize_bytes or b.get('usize_bytes', 8)
     lines = []          # generated text pieces
     out = HEAD % {'usize': usize_bytes}
     regions = []        # (start_line, end_line, kind, part, woven) ; lines are 1-based inclusive
@@ -73,7 +74,7 @@ def gen_build(bname, repo=None, usize_bytes=8):
 
     for pf in b['prelude']:
         s = cur_line()
-        out += open(os.path.join(units.VERIF, pf)).read()
+        out += open(os.path.join(units.VERIF, pf)).read().replace('@USIZE_BYTES@', str(usize_bytes))
         if not out.endswith('\n'):
             out += '\n'
         regions.append((s, cur_line() - 1, 'prelude', pf, None))
